@@ -514,14 +514,14 @@ theorem newRegion_spec (h : Heap) : Others h.length h (h ++ [[]]) ∧ Ext h (h +
     rw [get?_def, List.getElem?_append_left hlt]
     exact hq
 
-structure SimCloned (s c : Id) (tr : Bool) (h h' : Heap) : Prop where
+structure SimCloned (s c : Id) (tr dbg : Bool) (h h' : Heap) : Prop where
   reg : c.reg = h.length
   lt : s.reg < h.length
   others : Others h.length h h'
   ex : ∃ so persons' groups' trc inv,
     h.get? s = some (.sim so)
     ∧ h'.get? c = some (.sim { so with persons := persons', pops := (0, persons') :: groups', tracer := trc,
-                                       inval := inv, trace := tr })
+                                       inval := inv, trace := tr, debug := dbg })
     ∧ trc.reg = c.reg ∧ inv.reg = c.reg
     ∧ h'.get? trc = some (.tracer ⟨tr, [], []⟩) ∧ h'.get? inv = some (.inval [])
     ∧ PopPair c.reg c so.persons h h' (0, so.persons) (0, persons')
@@ -529,8 +529,8 @@ structure SimCloned (s c : Id) (tr : Bool) (h h' : Heap) : Prop where
     ∧ (NoDisk s.reg h → so.dir = none →
         (∀ po m, h.get? so.persons = some (.pop po) → po.members = some m → False) → Closed c.reg h')
 
-theorem cloneSim_spec {s c : Id} {tr : Bool} {h h' : Heap} (cl : Closed s.reg h)
-    (e : cloneSim s tr h = (.ok c, h')) : SimCloned s c tr h h' := by
+theorem cloneSim_spec {s c : Id} {tr dbg : Bool} {h h' : Heap} (cl : Closed s.reg h)
+    (e : cloneSim s tr dbg h = (.ok c, h')) : SimCloned s c tr dbg h h' := by
   unfold cloneSim at e
   obtain ⟨so, h0, e1, k1⟩ := bind_ok e
   obtain ⟨hso, eh⟩ := rdSim_ok e1
